@@ -102,7 +102,7 @@ def permRow [Zero α] (A : Csr α) (p qinv : Array Nat) (i : Nat) : List (Nat ×
 def permute [Zero α] (A : Csr α) (p q : Array Nat) : Option (Csr α) :=
   if p.size = 0 ∧ q.size = 0 then some A
   else if p.size ≠ A.rows ∨ q.size ≠ A.cols then none
-  else if A.isArrayless then some A     -- intended behaviour; the real code dereferences a null row_ptr (c02-edge:D1)
+  else if A.isArrayless then some A     -- `if (used_elements() == 0) return;` (D1, fixed in /repo by 59f054b00)
   else some (ofRows A.rows A.cols ((List.range A.rows).map (A.permRow p (invPerm q))))
 
 /-! ### `SparseMatrixBanded::convert(const SparseMatrixCSR &)` -/
@@ -131,11 +131,12 @@ def toBanded [Zero α] (A : Csr α) : Option (Banded α) :=
 
 /-! ### `SparseMatrixCSCR::convert(const MT_ &)` with `MT_ = SparseMatrixCSR` -/
 
-/-- used rows get consecutive compressed indices `k`; `prow_ptr[k+1] = offset + length`, `prow_numbers[k] = i`; then
+/-- an entry-free source yields `SparseMatrixCSCR(rows, cols)` (no arrays; D3, fixed in /repo by 59f054b00); otherwise
+    used rows get consecutive compressed indices `k`; `prow_ptr[k+1] = offset + length`, `prow_numbers[k] = i`; then
     `for k < used_rows: ta.set_line(prow_numbers[k], pval + prow_ptr[k], pcol_ind + prow_ptr[k], 0)` copies row
-    `prow_numbers[k]` to its compressed slot.  (An entry-free source without arrays makes the real code dereference a
-    null `row_ptr` — known finding c02-edge:D3; the model shows the intended entry-free result.) -/
+    `prow_numbers[k]` to its compressed slot -/
 def toCscr [Zero α] (A : Csr α) : Cscr α :=
+  if A.usedElements = 0 then ⟨A.rows, A.cols, #[], #[], #[], #[]⟩ else
   let used := (List.range A.rows).filter fun i => A.rowBegin i < A.rowEnd i
   let rs := used.map A.rowList
   ⟨A.rows, A.cols, (offsets 0 rs).toArray, (rs.flatten.map Prod.fst).toArray, (rs.flatten.map Prod.snd).toArray,
@@ -147,14 +148,23 @@ end Csr
 namespace Cscr
 variable {α : Type}
 
-/-- `get_length_of_line(i)` / `set_line(i, …)` of CSCR take the *compressed* row index, the generic converter passes
-    the uncompressed one: `set_line` aborts ("invalid row number provided!") as soon as `i = used_rows`, i.e. whenever
-    the matrix has an empty row; otherwise `rowNumbers` is the identity and the arrays are taken over.
-    `none` = abort (also `XASSERT(used_elements > 0)`). -/
-def toCsr (A : Cscr α) : Option (Csr α) :=
+/-- compressed index of row `i`: the first `k` with `rowNumbers[k] = i` (`get_length_of_line` / `set_line` look the row
+    number up in `row_numbers`; D6, fixed in /repo by 3df59c4a0) -/
+def findRow (A : Cscr α) (i : Nat) : Option Nat :=
+  (List.range A.usedRows).find? fun k => A.rowNumbers.getD k A.rows == i
+
+/-- the stored (column, value) pairs of matrix row `i` (empty when the row is not stored) -/
+def rowOf [Zero α] (A : Cscr α) (i : Nat) : List (Nat × α) :=
+  match A.findRow i with
+  | some k => (List.range' (A.rowPtr.getD k 0) (A.rowPtr.getD (k + 1) 0 - A.rowPtr.getD k 0)).map fun t =>
+      (A.colInd.getD t 0, A.val.getD t 0)
+  | none => []
+
+/-- the generic line-wise converter: lengths of all rows, prefix sums, then `set_line` row by row.
+    `none` = `XASSERT(used_elements > 0)` (an entry-free CSCR matrix still cannot be converted: finding D10). -/
+def toCsr [Zero α] (A : Cscr α) : Option (Csr α) :=
   if A.usedElements = 0 then none
-  else if A.usedRows < A.rows then none
-  else some ⟨A.rows, A.cols, A.rowPtr.extract 0 (A.rows + 1), A.colInd, A.val⟩
+  else some (Csr.ofRows A.rows A.cols ((List.range A.rows).map A.rowOf))
 
 end Cscr
 
